@@ -23,26 +23,36 @@ import c10_rules as G  # noqa: E402
 
 CLAIMED = True
 LEVEL = "proof"
-TECHNIQUE = ("Lean 4 proofs about a transcription of Stylesheet::addTemplate/addToList/addToTable/findTemplate (both bodies)/"
-             "findTemplateInImports and the built-in rule dispatch; tables regenerated from the source by a translator; "
-             "correspondence run of the real engine (quiet and reporting) against the compiled model and the section 5.5 specification")
-LEVEL_TEXT = ("Machine-checked over a transcription of the code: every pattern list is sorted by (priority or default, position) "
-              "after any construction history (table_sorted); each node's list holds exactly the created entries compatible "
-              "with it (locate_mem); findTemplate/findTemplateInImports visit modules in decreasing import precedence for "
-              "import trees of any depth (imports_order); hence the quiet body instantiates the XSLT 1.0 section 5.5 winner "
-              "(precedence, then priority - explicit or default per alternative -, then last) for every rule set, node and "
-              "mode in which each rule has one priority and no simplified stylesheet is imported (find_quiet_spec_partial); "
-              "the conflict-reporting body returns the same rule under syntactic conditions (find_reporting_eq_quiet_stable); "
-              "apply-imports only sees the modules the current rule's module imports (applyImports_scope); the default "
-              "priorities regenerated from the source are -0.5/-0.25/0/0.5 as prescribed. Counterexample theorems show where "
-              "the unchanged code departs from the full statement (union alternatives with different default priorities in "
-              "either body, boolean predicates in the reporting body, equal pattern strings with different meaning, key() "
-              "patterns on non-element nodes, imported simplified stylesheets); each is replayed on the real engine on every run.")
-LEVEL_NOTE = ("Trusted: Lean kernel; axioms propext/Classical.choice/Quot.sound only; the hand transcription (checked by the "
-              "correspondence run, bounded by generator coverage) and the regex translator; pattern matching itself is an "
-              "abstract parameter of the theorems (the harness evaluates each alternative's defining expression with Xalan's "
-              "own XPath evaluator: property C09 covers pattern = expression). Modelled, not verified: XPath::getMatchScore's "
-              "dynamic score is taken to be the static default score of the first matching alternative; stylesheet parsing.")
+TECHNIQUE = ("Lean 4 proofs about a transcription of XPath::getTargetData, Stylesheet::addTemplate/addToList/addToTable/"
+             "locateMatchPatternDataList/findTemplate (both bodies)/findTemplateInImports and the rule dispatch of "
+             "findTemplateToTransformChild; tables and code-shape flags regenerated from the source by a translator on every run; "
+             "correspondence run of the real engine (conflict warnings quiet and reported) against the compiled model and "
+             "against the executable section 5.5/5.6/5.8 specification")
+LEVEL_TEXT = ("Machine-checked for the code as committed (theorem code_as_committed re-reads the source shape on every run): "
+              "template_conflict_resolution - for every well-formed module tree of any import depth (xsl:include expanded, "
+              "simplified stylesheets allowed), every rule set (any union patterns, explicit or default priorities, modes), "
+              "every node kind/name and mode, both bodies of Stylesheet::findTemplate (conflict warnings quiet or reported) "
+              "return the XSLT 1.0 section 5.5 winner: highest import precedence, then highest priority (explicit, or the "
+              "default -0.5/-0.25/0/0.5 of the alternative that matches), then last; nothing exactly when no rule matches, "
+              "and then the built-in rule of the node type is applied (builtin_rule_when_none, "
+              "builtin_rule_after_apply_imports); applyImports_spec - xsl:apply-imports instantiates the section 5.6 winner "
+              "among the modules the current rule's module imports, also from a named template reached by call-template "
+              "(applyImports_call_template_scope); supporting theorems: table_sorted, locate_mem, routing_sound, imports_order, "
+              "simplified_stylesheet_is_slash_module, default_priorities_spec, generated_tables_agree, "
+              "conflicts_within_capacity (the conflicts array/vector of the reporting body is never overrun). The only "
+              "hypothesis left is on the abstract pattern matcher (it accepts an alternative only for nodes the "
+              "alternative's last step can select; '/' accepts the root). Partial theorems and counterexample theorems "
+              "document the six defects the check found in the pinned code (all repaired in /repo) and remain true for "
+              "both code shapes.")
+LEVEL_NOTE = ("Trusted: Lean kernel (leanchecker in the thorough tier); axioms propext/Classical.choice/Quot.sound only; the hand "
+              "transcription (validated by the correspondence run: rules chosen per node and mode in both bodies, warning "
+              "counts, getTargetData; bounded by generator coverage) and the regex translator (exits 1 on any unknown shape). "
+              "Abstract in the theorems: pattern matching (am) - the harness evaluates each alternative's defining expression "
+              "with Xalan's own XPath evaluator, agreement of patterns and expressions is property C09; priorities are "
+              "integers in the model (finite values only; -infinity and non-numbers are covered by fixed probes: known "
+              "finding C10-priority-negative-overflow, fix proposed). Modelled, not verified: SAX stylesheet construction "
+              "(StylesheetHandler include/import processing), the execution-context stacks behind current template / "
+              "invoker, rule bodies other than marker / call-template / apply-imports.")
 DESIGN_REF = "DESIGN.md section 5, C10; design/C10.md"
 
 P = "XalanModel.Props.C10."
@@ -61,6 +71,13 @@ THEOREMS = [P + n for n in (
     "find_reporting_eq_quiet_partial",
     "find_reporting_eq_quiet",
     "find_reporting_spec",
+    "code_as_committed",
+    "routing_sound",
+    "simplified_stylesheet_is_slash_module",
+    "template_conflict_resolution",
+    "applyImports_spec",
+    "conflicts_array_bound",
+    "conflicts_within_capacity",
     "find_reporting_eq_quiet_stable",
     "find_reporting_spec_partial",
     "find_reporting_eq_quiet_counterexample_union",
@@ -71,6 +88,7 @@ THEOREMS = [P + n for n in (
     "applyImports_scope",
     "applyImports_call_template_scope",
     "builtin_rule_when_none",
+    "builtin_rule_after_apply_imports",
 )]
 
 # one scratch directory per process, so that two runs of this check (e.g. quick and thorough) can overlap
@@ -556,13 +574,18 @@ def check_probes(env, ctx):
     d = os.path.join(WORK, "probe")
     os.makedirs(d, exist_ok=True)
 
+    warns = []
+
     def runboth(xsl, xml):
         outs = []
+        del warns[:]
         for q in (1, 0):
             r = env.harness("run %d %s %s" % (q, xsl, xml))
             if r is None or not r.startswith("OK "):
                 outs.append("ERR %r" % (r or "")[:200])
+                warns.append(-1)
             else:
+                warns.append(int(r.split(" ", 2)[1]))
                 outs.append(";".join("%s=%s" % m for m in _re.findall(r'<n name="([^"]*)">([^<]*)</n>', r)))
         return outs
 
@@ -599,6 +622,39 @@ def check_probes(env, ctx):
             ctx.fail("c10.defect[invalid-priority-nan]: priority=%r: quiet %s, reporting %s" % (p, q, r),
                      "a priority attribute that is not a number is accepted silently and the two findTemplate bodies then choose different rules",
                      {"probe": "priority", "value": p})
+    # more conflicting rules than the 100-entry stack array of the reporting body holds (conflicts_within_capacity)
+    for n in (99, 100, 101, 150):
+        rules = "".join('<xsl:template match="%s" mode="m">T%d</xsl:template>\n' % ("a" if i % 2 else "*", i) for i in range(1, n + 1))
+        f = os.path.join(d, "many.xsl")
+        with open(f, "w") as h:
+            h.write(PROBE_XSL.split("<xsl:template match=\"a\"")[0] + rules + "</xsl:stylesheet>\n")
+        q, r = runboth(f, os.path.join(d, "d.xml"))
+        ctx.case(nontrivial_key="probe:many:%d" % n, cls="probe")
+        last_star = n if n % 2 == 0 else n - 1
+        last_a = n if n % 2 else n - 1
+        exp = "r=T%d;a=T%d;b=T%d" % (last_star, last_a, last_star)
+        if q != exp or r != exp or warns != [0, 3]:
+            ctx.fail("c10.violation: %d conflicting rules: quiet %s reporting %s warnings %s, expected %s and 3 warnings" % (n, q, r, warns, exp),
+                     "%d rules of equal priority in one mode: the last one must win in both bodies, one warning per node" % n,
+                     {"probe": "many", "n": n})
+    # xsl:include: the included rules take the includer's import precedence and their document position
+    with open(os.path.join(d, "inc_main.xsl"), "w") as h:
+        h.write(PROBE_XSL.split("<xsl:template match=\"a\"")[0].replace(
+            "<xsl:template match=\"/\">", "<xsl:import href=\"inc_imp.xsl\"/>\n<xsl:template match=\"/\">", 1) +
+            '<xsl:template match="a" mode="m">T1</xsl:template>\n<xsl:include href="inc_inc.xsl"/>\n'
+            '<xsl:template match="b" mode="m">T4</xsl:template>\n</xsl:stylesheet>\n')
+    with open(os.path.join(d, "inc_inc.xsl"), "w") as h:
+        h.write('<xsl:stylesheet version="1.0" xmlns:xsl="http://www.w3.org/1999/XSL/Transform">\n'
+                '<xsl:template match="a" mode="m">T2</xsl:template>\n<xsl:template match="b" mode="m">T3</xsl:template>\n</xsl:stylesheet>\n')
+    with open(os.path.join(d, "inc_imp.xsl"), "w") as h:
+        h.write('<xsl:stylesheet version="1.0" xmlns:xsl="http://www.w3.org/1999/XSL/Transform">\n'
+                '<xsl:template match="*" mode="m" priority="10">T5</xsl:template>\n</xsl:stylesheet>\n')
+    q, r = runboth(os.path.join(d, "inc_main.xsl"), os.path.join(d, "d.xml"))
+    ctx.case(nontrivial_key="probe:include", cls="probe")
+    exp = "r=T5;a=T2;b=T4"
+    if q != exp or r != exp:
+        ctx.fail("c10.violation: xsl:include precedence: quiet %s reporting %s expected %s" % (q, r, exp),
+                 "included rules have the includer's import precedence and compete by document position", {"probe": "include"})
     for name, txt in (("mm.xsl", MODE_MAIN), ("mn.xsl", MODE_INC), ("mi.xsl", MODE_IMP)):
         with open(os.path.join(d, name), "w") as h:
             h.write(txt)
@@ -663,6 +719,11 @@ def run(ctx):
                         ctx.fail("c10.defect[call-template-current-rule]: the engine does not terminate :: " + describe(case)[:300],
                                  "apply-imports in a called named template re-enters the calling rule for ever", case)
                         continue
+                if not res.get("crash") and res["error"].startswith("engine(") and len(engine_errors) <= 3:
+                    # a valid rule set on which the engine reports an error instead of instantiating the prescribed rules
+                    ctx.fail("c10.violation: the engine fails on a valid rule set: %s :: %s" % (res["error"][:160], describe(case)[:300]),
+                             "the engine reports an error instead of instantiating the rules section 5.5 prescribes: " + res["error"][:300],
+                             case)
                 if res.get("crash"):
                     ncrash += 1
                     ctx.fail("c10.crash: " + describe(case)[:300],
@@ -674,6 +735,13 @@ def run(ctx):
                         break
                 continue
             nq += len(res["queries"])
+            for (qn, qm), qq in res["queries"].items():
+                if not qq["rq"] or not qq["rq"][0].startswith("T"):
+                    hk = "builtin:%s:%s" % (res["nodes"][qn]["kind"], "default-mode" if qm == 0 else "mode")
+                    ctx.hist[hk] = ctx.hist.get(hk, 0) + 1
+                elif len(qq["rq"]) > 1 and not all(x.startswith("T") for x in qq["rq"][1:]) or (
+                        qq["rq"] != qq["sp"][:len(qq["rq"])] and False):
+                    ctx.hist["rule-then-builtin(apply-imports fallback)"] = ctx.hist.get("rule-then-builtin(apply-imports fallback)", 0) + 1
             ctx.case(nontrivial_key=case_hash(case) if nontrivial(res) else None,
                      sample={"case": describe(case)[:400]} if name in ("gen:0", "gen:1") else None, cls=cls)
             nmod = len(G.all_modules(case["main"]))
